@@ -136,7 +136,7 @@ class _Sink(logging.Handler):
 
 _SINK = _Sink()
 _AMBIENT = {'logging': False, 'default': False, 'optimize': bool(sys.flags.optimize), 'warnings': False,
-            'warnings_default': False}
+            'warnings_default': False, 'faults': False}
 _WARN_FILTER = ('error', None, Warning, __import__('re').compile(r'pynetdicom2(\.|$)'), 0)
 
 
@@ -171,6 +171,80 @@ def set_logging(on):
     _AMBIENT['logging'] = bool(on)
 
 
+def provoke_faults():
+    """Ambient condition 'a failed operation came before': what an application does now and then - it hands the library
+    something that cannot be encoded or decoded (a context ID above 255 behind valid items, a maximum length of 2**32, a
+    status of 70000, a data set with Rows=70000, truncated bytes), gets the error, and carries on in the same thread.
+    Every one of these operations MAY fail (that is the point) - none of them may leave anything behind that the next,
+    valid operation trips over.  Exceptions of the library are swallowed here; only HarnessError passes."""
+    from pynetdicom2 import pdu, userdataitems as udi, dimsemessages, dsutils
+    impl = lambda: udi.ImplementationClassUIDSubItem('1.2.826.0.1.3680043.9.9999.1')    # noqa: E731
+
+    def pdata():
+        pdu.PDataTfPDU([pdu.PresentationDataValueItem(1, b'\x03left-over'), pdu.PresentationDataValueItem(300, b'\x02x')]).encode()
+
+    def user_info():
+        pdu.UserInformationItem([impl(), udi.MaximumLengthSubItem(2 ** 32)]).encode()
+
+    def assoc(cls, item):
+        def run():
+            cls('LEFT-OVER', 'GHOST', [pdu.ApplicationContextItem('1.2.840.10008.3.1.1.1'), item(1), item(301),
+                                       pdu.UserInformationItem([udi.MaximumLengthSubItem(16384), impl()])]).encode()
+        return run
+    rq_item = lambda i: pdu.PresentationContextItemRQ(i, pdu.AbstractSyntaxSubItem('1.2.840.10008.1.1'),      # noqa: E731
+                                                       [pdu.TransferSyntaxSubItem('1.2.840.10008.1.2')])
+    ac_item = lambda i: pdu.PresentationContextItemAC(i, 0, pdu.TransferSyntaxSubItem('1.2.840.10008.1.2'))      # noqa: E731
+
+    def assoc_user_info(cls):
+        def run():
+            cls('LEFT-OVER', 'GHOST', [pdu.ApplicationContextItem('1.2.840.10008.3.1.1.1'), rq_item(1) if cls is pdu.AAssociateRqPDU else ac_item(1),
+                                       pdu.UserInformationItem([impl(), udi.MaximumLengthSubItem(2 ** 32)])]).encode()
+        return run
+
+    def command(field, value):
+        def run():
+            msg = dimsemessages.CFindRSPMessage()
+            msg.message_id_being_responded_to = 1
+            msg.sop_class_uid = '1.2.840.10008.5.1.4.1.2.1.1'
+            msg.status = 0xFF00
+            setattr(msg, field, value)
+            msg.set_length()
+            list(msg.encode(1, 16384))
+        return run
+
+    def data_set():
+        import warnings
+        from pydicom.dataset import Dataset
+        ds = Dataset()
+        ds.PatientName = 'GHOST^PATIENT'
+        ds.PatientID = 'left-over'
+        with warnings.catch_warnings():
+            warnings.simplefilter('ignore')
+            ds.Rows = 70000
+            dsutils.encode(ds, True, True)
+
+    def decodes():
+        raw = pdu.AAssociateRqPDU('A', 'B', [pdu.ApplicationContextItem('1.2.840.10008.3.1.1.1'), rq_item(1),
+                                             pdu.UserInformationItem([udi.MaximumLengthSubItem(16384), impl()])]).encode()
+        for cut in (len(raw) - 3, 80, 9):
+            try:
+                pdu.AAssociateRqPDU.decode(raw[:cut])
+            except Exception:      # noqa
+                pass
+        dsutils.decode(b'\x10\x00\x10\x00\x40\x00\x00\x00GHOST', True, True)
+    # (the one operation that contains a successful encode comes first: nothing after it tidies up by accident)
+    for op in (decodes, pdata, user_info, assoc(pdu.AAssociateRqPDU, rq_item), assoc(pdu.AAssociateAcPDU, ac_item),
+               assoc_user_info(pdu.AAssociateRqPDU), assoc_user_info(pdu.AAssociateAcPDU),
+               command('status', 70000), command('message_id_being_responded_to', 65536), data_set):
+        import warnings
+        try:
+            with warnings.catch_warnings():
+                warnings.simplefilter('ignore')
+                op()
+        except Exception:       # noqa  (the operation may fail; what it leaves behind is the subject)
+            pass
+
+
 def quiet_warnings():
     """What every check does first - silence pydicom's chatter - without losing the ambient 'library warnings are
     errors' condition of this shard / case."""
@@ -188,6 +262,8 @@ def ambient_case(case):
             case = dict(case, _ambient_optimize=True)
         if _AMBIENT['warnings'] and '_ambient_warnings' not in case:
             case = dict(case, _ambient_warnings=True)
+        if _AMBIENT['faults'] and '_ambient_faults' not in case:
+            case = dict(case, _ambient_faults=True)
     return case
 
 
@@ -299,6 +375,9 @@ def hyp_search(ctx, strategy, fn, max_examples, name='', max_buckets=6, shrink=T
         def test(value, ambient):
             set_logging(ambient in (3, 7) or _AMBIENT['default'])
             set_warnings(ambient == 5 or _AMBIENT['warnings_default'])
+            _AMBIENT['faults'] = ambient in (2, 6)
+            if _AMBIENT['faults']:
+                provoke_faults()        # (failed operations right before the case, same thread)
             try:
                 fn(value)
             except Violation as v:
@@ -310,6 +389,7 @@ def hyp_search(ctx, strategy, fn, max_examples, name='', max_buckets=6, shrink=T
             finally:
                 set_logging(_AMBIENT['default'])
                 set_warnings(_AMBIENT['warnings_default'])
+                _AMBIENT['faults'] = False
 
         try:
             test()
